@@ -809,7 +809,7 @@ C15Scope == IF Scope # "c15" THEN {} ELSE {ToJsonProg(v) : v \in C15Values} \cup
 -----------------------------------------------------------------------------
 (* ropes (C16): pairs of rope expressions over a piece table that contains  *)
 (* the empty string, line breaks and 1-4 byte characters                    *)
-RopePieces == <<<<>>, <<cA>>, <<NL>>, <<cA, NL>>, UE9, U1F600, <<cA, cB>>>>
+RopePieces == <<<<>>, <<cA>>, <<NL>>, <<cA, NL>>, UE9, U1F600, <<cA, cB>>, <<cB, NL, 99>>>>
 RNew == <<"new">>
 RFrom(p) == <<"from", p>>
 RIter(ps) == <<"from_iter", ps>>
@@ -829,9 +829,10 @@ RLen(e) ==
 
 RE0Slim ==
   {RNew, RFrom(1), RFrom(3), RFrom(4), RIter(<<>>), RIter(<<1, 4>>), RIter(<<0, 1>>),
-   RIter(<<3, 5, 2>>), RIter(<<4>>), RAdd(RNew, 0), RAdd(RNew, 1)}
+   RIter(<<3, 5, 2>>), RIter(<<4>>), RAdd(RNew, 0), RAdd(RNew, 1),
+   RIter(<<7, 1>>), RIter(<<1, 7, 4>>)}
 RE0 ==
-  {RNew} \cup {RFrom(p) : p \in 0..6}
+  {RNew} \cup {RFrom(p) : p \in 0..7}
   \cup {RIter(ps) : ps \in UNION {[1..k -> 0..5] : k \in 0..2}}
 RE1 ==
   RE0
